@@ -20,7 +20,97 @@ extern "C" float k_eu2_f(const float*a,const float*b){ return molli::euclidean2<
 extern "C" double k_eu2_d(const double*a,const double*b){ return molli::euclidean2<double,3>(a,b);}
 extern "C" float k_eu_f(const float*a,const float*b){ return molli::euclidean<float,3>(a,b);}
 extern "C" double k_eu_d(const double*a,const double*b){ return molli::euclidean<double,3>(a,b);}
+using namespace molli;
+#define W22(NAME, T, K) extern "C" void NAME(T*a, ssize_t L1, T*b, ssize_t L2){ carray<T> A(a,L1,3,1), B(b,L2,3,1); cdist22<T, K<T,3>>(A,B); }
+#define W32(NAME, T, K) extern "C" void NAME(T*a, ssize_t X, ssize_t L1, T*b, ssize_t L2){ carray<T> A(a,X,L1,3), B(b,L2,3,1); cdist32<T, K<T,3>>(A,B); }
+W22(w22_eu_f, float, euclidean) W22(w22_eu_d, double, euclidean) W22(w22_eu2_f, float, euclidean2) W22(w22_eu2_d, double, euclidean2)
+W32(w32_eu_f, float, euclidean) W32(w32_eu_d, double, euclidean) W32(w32_eu2_f, float, euclidean2) W32(w32_eu2_d, double, euclidean2)
 '''
+
+
+def _spec(a, b, sort, root):
+    rm = z3.RNE()
+    acc = z3.FPVal(0.0, sort)
+    for i in range(3):
+        d = z3.fpSub(rm, a[i], b[i])
+        acc = z3.fpAdd(rm, acc, z3.fpMul(rm, d, d))
+    return z3.fpSqrt(rm, acc) if root else acc
+
+
+def native_replay(fname, x, l1, l2):
+    """the wrapper compiled to machine code and run on concrete, pairwise different rows; compared with the plain numpy evaluation"""
+    rank32, root, dbl = fname.startswith("w32"), "_eu_" in fname, fname.endswith("d")
+    rng = np.random.default_rng(11)
+    dt = np.float64 if dbl else np.float32
+    a = rng.integers(-8, 9, size=((x if rank32 else 1) * l1, 3)).astype(dt) / dt(4)
+    b = rng.integers(-8, 9, size=(l2, 3)).astype(dt) / dt(4) + dt(0.125)
+    try:
+        got = irfp.native_run(DRIVER % repo_root(), fname, x, l1, l2, a.ravel(), b.ravel(), repo=repo_root())
+    except irfp.IRError as e:
+        return None, str(e)
+    ref = ((a[:, None, :] - b[None, :, :]) ** 2).sum(-1)
+    ref = (np.sqrt(ref) if root else ref).ravel()
+    got = np.array(got, dtype=float)
+    where = f"{fname} on shapes X={x}, L1={l1}, L2={l2}, a={a.tolist()}, b={b.tolist()}"
+    if got.shape != ref.shape:
+        return False, where + f": {got.size} result cells, numpy gives {ref.size}"
+    if not np.allclose(got, ref, rtol=1e-6, atol=1e-6, equal_nan=False):
+        return False, where + f": native result {got.tolist()} (nan = never written), numpy gives {ref.tolist()}"
+    return True, where + ": native result equals numpy"
+
+
+def run_irfp_loops(rep, ll, tier):
+    """cdist22 / cdist32 of the current source: for every shape within the bound the result buffer has one cell per (conformer,) row pair, each
+    written exactly once with the kernel value of that pair, all loads and stores in bounds (integers concrete, FP contents symbolic)"""
+    S = 3 if tier == "quick" else 5
+    for rank in (22, 32):
+        for ty in ("float", "double"):
+            for root in (False, True):
+                fname = f"w{rank}_{'eu' if root else 'eu2'}_{'f' if ty == 'float' else 'd'}"
+                sort = irfp.SORTS[ty]
+                shapes = [(x, l1, l2) for x in ((1,) if rank == 22 else range(0, 3 if tier == 'quick' else 4)) for l1 in range(0, S + 1) for l2 in range(0, S + 1)]
+                ob = rep.add(Obligation(name=f"irfp/cdist{rank}<{ty},{'euclidean' if root else 'euclidean2'}>: every cell = kernel(row pair), written once, in bounds; shapes X<={2 if tier == 'quick' else 3}, L1,L2<={S}", engine="IRFP", paths=len(shapes)))
+                t0, bad, cells = 0.0, None, 0
+                try:
+                    for (x, l1, l2) in shapes:
+                        M = irfp.Machine(ll, max_steps=200000)
+                        A = [z3.FP(f"a{i}", sort) for i in range(x * l1 * 3)]
+                        B = [z3.FP(f"b{i}", sort) for i in range(l2 * 3)]
+                        pa, pb = M.buffer("A", A), M.buffer("B", B)
+                        M.call(fname, [pa, l1, pb, l2] if rank == 22 else [pa, x, l1, pb, l2])
+                        R = M.mem.get("R")
+                        if R is None or len(R) != x * l1 * l2 or any(w != 1 for w in M.writes["R"]):
+                            bad = f"shape {(x, l1, l2)}: result cells {None if R is None else len(R)}, store counts {M.writes.get('R')}"
+                            break
+                        diffs = []
+                        for c in range(x):
+                            for i in range(l1):
+                                for j in range(l2):
+                                    want = _spec(A[(c * l1 + i) * 3:(c * l1 + i) * 3 + 3], B[j * 3:j * 3 + 3], sort, root)
+                                    diffs.append(z3.Not(irfp.fp_equal(R[(c * l1 + i) * l2 + j], want)))
+                                    cells += 1
+                        if diffs:
+                            r, dt, model = irfp.decide(z3.Or(*diffs), 120)
+                            t0 += dt
+                            if r != "unsat":
+                                bad = f"shape {(x, l1, l2)}: solver answered {r} for 'some cell differs from the kernel value of its row pair'"
+                                break
+                except irfp.IRError as e:
+                    bad = f"IR interpreter: {e}"
+                ob.solver_s = t0
+                if bad is None:
+                    ob.status, ob.detail, ob.twin = "discharged", f"{len(shapes)} shapes, {cells} cells, all unsat", "n/a"
+                elif bad.startswith("IR interpreter"):
+                    ob.status, ob.detail = "inconclusive", bad
+                else:
+                    # replay on real code: the same templates compiled natively by the real compiler and run on concrete rows, against numpy
+                    ok, detail = native_replay(fname, x, l1, l2)
+                    if ok is False:
+                        ob.status, ob.detail, ob.replay = "violated", bad + " | " + detail, "reproduced (native build of the current distance.cpp)"
+                        path = rep.write_replay({"engine": "IRFP", "module": "harness.C19", "label": "irfp-loops", "goal": fname, "shape": [x, l1, l2], "observed": detail})
+                        rep.violations.append((f"{ob.name}: {detail}", path))
+                    else:
+                        ob.status, ob.detail = "inconclusive", bad + " | native replay: " + detail
 
 
 def repo_root():
@@ -52,28 +142,39 @@ def run_irfp(rep, tier):
         if r == "unsat" and M.loads == 6:
             ob.status, ob.detail, ob.twin = "discharged", f"unsat; {M.steps} IR instructions executed, {M.loads} in-bounds loads (3 trips, unwinding exact)", "n/a"
         elif r == "sat":
-            # replay on the compiled extension: the model's inputs through molli_xt against the float evaluation of the spec
-            import molli_xt
+            # replay on real code: the model's inputs through a native build of the current distance.cpp, against the float evaluation of the spec
             dt_np = np.float32 if ty == "float" else np.float64
+
             def fv(x):
                 v = model.eval(x, model_completion=True)
-                return float(eval(str(z3.simplify(z3.fpToReal(v))).replace("?", ""))) if not (z3.is_true(z3.simplify(z3.fpIsNaN(v))) or z3.is_true(z3.simplify(z3.fpIsInf(v)))) else float("nan")
+                if z3.is_true(z3.simplify(z3.fpIsNaN(v))):
+                    return float("nan")
+                if z3.is_true(z3.simplify(z3.fpIsInf(v))):
+                    return float("-inf") if z3.is_true(z3.simplify(z3.fpIsNegative(v))) else float("inf")
+                q = z3.simplify(z3.fpToReal(v))
+                return float(Fraction(q.numerator_as_long(), q.denominator_as_long()))
             a = np.array([[fv(x) for x in A]], dtype=dt_np)
             b = np.array([[fv(x) for x in B]], dtype=dt_np)
-            got = (molli_xt.cdist22_eu if root else molli_xt.cdist22_eu2)(a, b)[0, 0]
-            acc = dt_np(0)
-            for i in range(3):
-                acc = dt_np(acc + dt_np(dt_np(a[0, i] - b[0, i]) * dt_np(a[0, i] - b[0, i])))
-            want = dt_np(np.sqrt(acc)) if root else acc
+            wname = f"w22_{'eu' if root else 'eu2'}_{'f' if ty == 'float' else 'd'}"
+            try:
+                got = dt_np(irfp.native_run(DRIVER % repo_root(), wname, 1, 1, 1, a.ravel(), b.ravel(), repo=repo_root())[0])
+            except (irfp.IRError, IndexError) as e:
+                ob.status, ob.detail = "inconclusive", f"sat, native replay failed: {e}"
+                continue
+            with np.errstate(all="ignore"):
+                acc = dt_np(0)
+                for i in range(3):
+                    acc = dt_np(acc + dt_np(dt_np(a[0, i] - b[0, i]) * dt_np(a[0, i] - b[0, i])))
+                want = dt_np(np.sqrt(acc)) if root else acc
             if got != want and not (np.isnan(got) and np.isnan(want)):
-                ob.status, ob.replay = "violated", "reproduced on the compiled extension"
+                ob.status, ob.replay = "violated", "reproduced (native build of the current distance.cpp)"
                 path = rep.write_replay({"engine": "IRFP", "module": "harness.C19", "label": "irfp", "goal": fname, "a": a.tolist(), "b": b.tolist(), "observed": float(got), "expected": float(want)})
                 rep.violations.append((f"{fname}: kernel returns {got!r} for a={a.tolist()} b={b.tolist()}, sequential IEEE evaluation gives {want!r}", path))
             else:
-                ob.status, ob.detail = "inconclusive", (f"the IR of the current distance.cpp differs from the sequential spec for a={a.tolist()} b={b.tolist()}, but the prebuilt molli_xt (which "
-                                                        "cannot be rebuilt here: no pybind11) agrees with the spec: source and binary are out of step")
+                ob.status, ob.detail = "inconclusive", f"the IR differs from the sequential spec for a={a.tolist()} b={b.tolist()} but the native build agrees with it (interpreter or encoding artefact)"
         else:
             ob.status, ob.detail = "inconclusive", f"solver answered {r}; loads={M.loads}"
+    run_irfp_loops(rep, ll, tier)
     # negative control: a kernel that skips the last component must be told apart
     sort = irfp.SORTS["float"]
     A = [z3.FP(f"a{i}", sort) for i in range(3)]
@@ -595,6 +696,9 @@ def replay(d):
     m = re.match(r"(aso|aeif)\[(\d+),(\d+),(\d+),(\w)\]", lab)
     if m:
         return replay_field(m.group(1), int(m.group(2)), int(m.group(3)), int(m.group(4)), m.group(5) == "w")(d["goal"], d["model"], None)
+    if lab == "irfp-loops":
+        ok, detail = native_replay(d["goal"], *d["shape"])
+        return (ok is not False), detail
     if lab == "irfp":
         return False, f"kernel {d['goal']} differs from the sequential spec at a={d['a']} b={d['b']}"
     raise ValueError(lab)
